@@ -675,3 +675,44 @@ func (x *Ctx) rejectOn(key string, site ssa.Instruction, c Cmp) bool {
 		map[bool]string{true: "the site is reachable from the edge on which (" + c.String() + ") holds", false: "no test of (" + c.String() + ") before the site"}[seen])
 	return seen && ok
 }
+
+func init() {
+	register(&Rule{ID: "O2.reattach", Min: 2, Text: "a detached document is not re-attached: in clients.AttachDocument the test ClientInfo.IsAlreadyDetached is made on the record as the caller read it — it dominates Database.TryAttaching, which overwrites the document's entry with 'attaching' and would make the test vacuous — and neither TryAttaching nor ClientInfo.AttachDocument is reachable from the edge on which the test is true (that edge returns ErrDocumentAlreadyDetached)",
+		Run: func(x *Ctx) {
+			fn := x.fn("server/clients.AttachDocument")
+			already := x.P.FnObj(dbPkg + ".(*ClientInfo).IsAlreadyDetached")
+			try := x.P.IfaceMethod(dbPkg + ".Database.TryAttaching")
+			attach := x.P.FnObj(dbPkg + ".(*ClientInfo).AttachDocument")
+			if fn == nil || already == nil || try == nil || attach == nil {
+				x.C.Unresolved(x.id(), "clients.AttachDocument / ClientInfo.IsAlreadyDetached / Database.TryAttaching")
+				return
+			}
+			k := "func=" + prog.FnName(fn)
+			checks := callsToIn(fn, already)
+			if len(checks) == 0 {
+				x.fail(k+" tests-already-detached", x.fpos(fn), "AttachDocument no longer tests IsAlreadyDetached")
+				return
+			}
+			var effects []ssa.CallInstruction
+			for _, c := range prog.CallsIn(fn) {
+				if c.Common().IsInvoke() && c.Common().Method == try {
+					effects = append(effects, c)
+				}
+			}
+			effects = append(effects, callsToIn(fn, attach)...)
+			for i, e := range effects {
+				name := "AttachDocument"
+				if e.Common().IsInvoke() {
+					name = e.Common().Method.Name()
+				}
+				dom := false
+				for _, c := range checks {
+					if prog.Dominates(c, e) {
+						dom = true
+					}
+				}
+				x.check(dom, fmt.Sprintf("%s effect=%s#%d after-the-test", k, name, i+1), x.pos(e), "the test dominates the effect", "the document's entry is rewritten before IsAlreadyDetached is tested: after TryAttaching the entry says 'attaching', the test can never fire, and a detached replica attaches again with its old checkpoint")
+				x.rejectOn(fmt.Sprintf("%s effect=%s#%d not-when-already-detached", k, name, i+1), e, isTrue(vpCall(already)))
+			}
+		}})
+}
